@@ -31,3 +31,16 @@ Definition sb_pinned_facts : sb_facts :=
      sbf_ref_get_checked := sbf_ref_get_checked sb_cur_facts; sbf_indexer_noinit := sbf_indexer_noinit sb_cur_facts;
      sbf_frame_inherit := sbf_frame_inherit sb_cur_facts; sbf_userfunc_unsafe := sbf_userfunc_unsafe sb_cur_facts |}.
 
+(* the guard table is exactly the expected one: these and only these constructors refuse to run *)
+Definition sb_expected_guarded : list sb_name :=
+  [sb_n_Apply; sb_n_For; sb_n_ImportDefaultTemplates; sb_n_Import; sb_n_Include; sb_n_Library; sb_n_Object;
+   sb_n_Set; sb_n_SetConst; sb_n_While].
+
+(* the frames the product creates for user supplied code: the filter frame and both event frames are
+   sandboxed unconditionally, the console frames take the request parameter *)
+Definition sb_frames_expected : bool :=
+  forallb (fun p => let '(site, want) := p in
+                    match find (fun q => String.eqb (fst q) site) f_sb_frames with
+                    | Some q => String.eqb (snd q) want | None => false end)
+    [("filterutility:2", "true"); ("eventqueue:1", "true"); ("eventqueue:2", "true");
+     ("consolehandler:1", "sandboxed"); ("consolehandler:2", "sandboxed")]%string.
